@@ -37,3 +37,14 @@ Proof. intros H. exact (slots_injective_of_distinct cells (k_facets k) (k_nnodes
 Lemma edge_slots_injective_every_cell_type k cells :
   Forall (fun c => NoDup c /\ length c = k_nnodes k) cells -> slots_injective cells (k_edges k).
 Proof. intros H. exact (slots_injective_of_distinct cells (k_edges k) (k_nnodes k) (edges_slots_ok k) H). Qed.
+
+(* tetrahedra: the boundary refdom lists the three vertex pairs of a triangle, facet slots have three vertices, facets are
+   row-sorted, and (facet slot, side) compositions are exactly the edge slots  ==>  f2e numbers mesh.edges *)
+Lemma tet_bnd_all_pairs : tet_bnd = [[0; 1]; [1; 2]; [0; 2]].
+Proof. reflexivity. Qed.
+Lemma tet_facets_have_three_vertices : Forall (fun fs => length fs = 3) tet_facets.
+Proof. repeat constructor. Qed.
+Lemma tet_sorted_facets : tet_sortf = true.
+Proof. reflexivity. Qed.
+Lemma tet_compose_ok : compose_ok tet_facets tet_bnd tet_edges = true.
+Proof. vm_compute. reflexivity. Qed.
